@@ -215,6 +215,17 @@ def run_config_reuse(out, drv, rng, tab, ctxs, cfg, fe):
         out.violation(f"{WHAT}: {fe} stream raised {type(e).__name__}: {e} when one Config object was run on a second table",
                       {"case": jsonable(case)})
         return
+    # the same STREAM object (and Config object) run twice gives the same records twice
+    try:
+        r1, r2 = sc.run_frontend(fe, tab, cobj, twice=True)
+        k1 = sorted(key(sc.canon_ctx_result(r)) for r in r1)
+        k2 = sorted(key(sc.canon_ctx_result(r)) for r in r2)
+        if k1 != k2:
+            out.violation(f"{WHAT}: running the same {fe} stream object a second time gives different results",
+                          {"case": jsonable(dict(case, table=tab)), "first_only": [json.loads(k) for k in k1 if k not in k2][:3],
+                           "second_only": [json.loads(k) for k in k2 if k not in k1][:3]})
+    except Exception as e:  # noqa: BLE001
+        out.violation(f"{WHAT}: {fe} stream raised {type(e).__name__}: {e} when run a second time", {"case": jsonable(case)})
     out.record(case, True, [f"fe:{fe}", "config-reuse", f"dropped:{len(dropped)}"])
     exp_keys, obs_keys = sorted(key(r) for r in exp), sorted(key(r) for r in obs)
     if exp_keys != obs_keys:
